@@ -1008,7 +1008,8 @@ class Exec:
             src = ast.unparse(e)
             for key, ty in ab.items():
                 if src == key or (key.endswith('*') and src.startswith(key[:-1])):
-                    self.abstracted.append('%s @%d -> %s' % (src[:60], getattr(e, 'lineno', 0), ty))
+                    self.abstracted.append('%s @%d -> %s' % (src[:60], getattr(e, 'lineno', 0),
+                                                             ('model ' + getattr(ty, '__name__', 'function')) if callable(ty) and not isinstance(ty, Ty) else ty))
                     if ty is None:
                         return None
                     if callable(ty) and not isinstance(ty, Ty):
